@@ -795,6 +795,9 @@ pub fn scan_file(rel: &str, src: &str, g: &Globals) -> FileScan {
                 "SystemTime" | "Instant" | "Utc" | "Local" if path_next && n3 == "now" => hit = Some(("wall-clock", format!("{}::now", s))),
                 "elapsed" if p1 == "." && n1 == "(" && n2 == ")" => hit = Some(("wall-clock", "elapsed".into())),
                 "thread_rng" | "from_entropy" | "OsRng" | "getrandom" | "new_v4" => hit = Some(("entropy", s.to_string())),
+                // the tree's own production defaults: an entropy-seeded generator, the system clock
+                "ProductionRng" => hit = Some(("entropy", "ProductionRng".into())),
+                "ProductionTimeSource" | "ProductionClock" | "ProductionRuntime" if p1 != "struct" && p1 != "for" && p1 != "impl" => hit = Some(("wall-clock", s.to_string())),
                 "rand" if path_next && n3 == "random" => hit = Some(("entropy", "rand::random".into())),
                 "RandomState" if path_next && n3 == "new" => hit = Some(("entropy", "RandomState::new".into())),
                 "env" if path_next && (n3 == "var" || n3 == "vars" || n3 == "args" || n3 == "var_os") => hit = Some(("environment", format!("env::{}", n3))),
@@ -1386,6 +1389,12 @@ pub const ALLOWED: &[(&str, usize, &str, &str)] = &[
     ("src/streaming/write_buffer.rs|WriteBuffer::flush|wall-clock|Instant::now", 1, "inert", "`last_flush` is read only by should_flush (off-path, previous entry)"),
     ("src/streaming/write_buffer.rs|WriteBuffer::should_flush|wall-clock|elapsed", 1, "off-path", "time-based flush trigger (real elapsed time): the DST harnesses flush explicitly, by a seeded probability"),
     ("src/streaming/write_buffer.rs|WriteBufferInner::new|wall-clock|Instant::now", 1, "inert", "`last_flush` is read only by should_flush (off-path, previous entry)"),
+    ("src/simulator/connection.rs|SimulatedConnection::process|entropy|ProductionRng", 1, "production", "inside #[cfg(feature = \"simulation\")]: an entropy-seeded generator decides BUGGIFY delays — builds with --features simulation are declared not covered (tools/props/C20.json); the default build does not compile it"),
+    ("src/simulator/connection.rs|SimulatedConnection::send_command|entropy|ProductionRng", 1, "production", "as above (packet drop / duplicate under --features simulation)"),
+    ("src/streaming/checkpoint.rs|CheckpointManager::new|wall-clock|ProductionTimeSource", 1, "production", "default time source of CheckpointManager::new; no simulation harness builds a CheckpointManager"),
+    ("src/streaming/clock.rs|ProductionClock::new|wall-clock|ProductionClock", 1, "production", "its own constructor"),
+    ("src/streaming/compaction.rs|Compactor::new|wall-clock|ProductionTimeSource", 1, "inert", "ON the path of CompactionDSTHarness: the tombstone cutoff is wall-clock ms − ttl, compared with LAMPORT times of the workload (1 … a few thousand): every tombstone is below the cutoff for any clock after 1970 + ttl, so the comparison has the same outcome in every run (that all tombstones are dropped is C13's finding tombstone-gc:clock-domains, not a C20 matter)"),
+    ("src/streaming/persistence.rs|StreamingPersistence::new|wall-clock|ProductionClock", 1, "inert", "ON the path of StreamingDSTHarness: the clock only stamps last_flush, which is read by should_flush alone — never called by a simulation file (allow-listed off-path, machine-checked)"),
 ];
 
 /// calls that MUST be present: a harness whose fault decisions go through the thread-local BUGGIFY
